@@ -486,7 +486,7 @@ def gen_prims(ctx):
                 L.append("int %d %02x%02x" % (p, b0 & 0xff, b1))
     for p in range(1, 9):
         full = (1 << p) - 1
-        for _ in range(400 if quick else 4000):
+        for _ in range(2000 if quick else 12000):
             k = rng.randint(1, 7)
             body = [rng.choice([0x80, 0xff, 0x81, 0x8f, 0xfe, rng.randrange(128, 256)]) for _ in range(k - 1)]
             body.append(rng.choice([0, 1, 7, 8, 15, 16, 0x7f, rng.randrange(128)]))
@@ -494,7 +494,7 @@ def gen_prims(ctx):
             L.append("int %d %s" % (p, C.hx(bytes([full | rng.choice([0, 0x80 if p < 8 else 0])]) + bytes(body) + tail)))
         vals = [0, 1, full - 1, full, full + 1, full + 127, full + 128, full + 16383, full + 16384, 2 ** 21 + full,
                 2 ** 28 + full - 1, 2 ** 28 + full, 2 ** 31 - 1, 2 ** 31, 2 ** 32 - 1, 65535, 4096]
-        vals += [rng.randrange(2 ** rng.randint(1, 32)) for _ in range(200 if quick else 3000)]
+        vals += [rng.randrange(2 ** rng.randint(1, 32)) for _ in range(1500 if quick else 10000)]
         for v in vals:
             if 0 <= v < 2 ** 32:
                 L.append("encint %d %d" % (p, v))
@@ -504,10 +504,10 @@ def gen_prims(ctx):
     for b in range(256):
         L.append("huffrt %02x" % b)
         L.append("huffenc %02x" % b)
-    pairs = range(65536) if not quick else [rng.randrange(65536) for _ in range(6000)]
+    pairs = range(65536)
     for x in pairs:
         L.append("huffrt %04x" % x)
-    for _ in range(3000 if quick else 40000):
+    for _ in range(15000 if quick else 100000):
         k = rng.random()
         if k < 0.5:
             s = bytes(rng.choice(b"abcdefghijklmnopqrstuvwxyz0123456789-./: =;,%") for _ in range(rng.randint(0, 40)))
@@ -522,12 +522,12 @@ def gen_prims(ctx):
         L.append("huffdec 100 %02x" % b)
     for x in range(65536):
         L.append("huffdec 100 %04x" % x)
-    for _ in range(20000 if quick else 400000):
+    for _ in range(200000 if quick else 1500000):
         n = rng.randint(3, 6)
         L.append("huffdec %d %s" % (rng.choice([100, 100, 100, 0, 1, 2, 3, 4]),
                                      C.hx(bytes(rng.choice([rng.randrange(256), 0xff, 0xff, 0xfe]) for _ in range(n)))))
     # string literals: valid ones with every truncation, random ones
-    for _ in range(1500 if quick else 20000):
+    for _ in range(8000 if quick else 60000):
         s = bytes(rng.randrange(256) for _ in range(rng.choice([0, 1, 2, 5, 20, 126, 127, 128, 300])))
         raw = py_enc_int(7, 0, len(s)) + s
         cap = rng.choice([65535, 65535, len(s), max(0, len(s) - 1), len(s) + 1, 0])
@@ -549,20 +549,25 @@ def gen_histories(ctx, exe):
     """valid connection histories from three encoders -> conn lines + expectations"""
     rng = ctx.rng
     quick = ctx.quick
-    n_conn = 250 if quick else 2500
-    n_long = 3 if quick else 12
+    n_conn = 450 if quick else 3000
+    n_short = 240 if quick else 1500      # short histories of short blocks: corrupted exhaustively below
+    n_long = 4 if quick else 16
     lean_in, ls_in, ng_in = [], [], []
     meta = {"lean": [], "ls": [], "ng": []}
-    for ci in range(n_conn + n_long):
-        long = ci >= n_conn
-        nblocks = rng.randint(300, 1000) if long else rng.choice([1, 2, 3, 5, 8, 20, 40])
+    for ci in range(n_conn + n_short + n_long):
+        long = ci >= n_conn + n_short
+        short = n_conn <= ci < n_conn + n_short
+        nblocks = rng.randint(300, 1000) if long else rng.choice([1, 1, 2]) if short else rng.choice([1, 2, 3, 5, 8, 20, 40])
         pool = rand_pool(rng, rng.choice([3, 8, 30, 120]))
+        if short:
+            pool = [(n[:12] or b"x", v[:10]) for n, v in pool]
+            pool = [(n if n[-1:] not in (b" ", b"\t", b"\n", b"\r", b"\x0b", b"\x0c") else n[:-1] + b"q", v) for n, v in pool]
         which = ("lean", "ls", "ng")[ci % 3]
         midblock = which == "lean" and rng.random() < 0.12
         ops, exps, disp = [], [], []
         tbl = PyTable(4096)
         for bi in range(nblocks):
-            hdrs = rand_block(rng, pool)
+            hdrs = rand_block(rng, pool, 4)[:4] if short else rand_block(rng, pool)
             if which == "lean":
                 first = []
                 if rng.random() < 0.08:
@@ -637,7 +642,7 @@ def corrupt_lines(ctx, valid_lines):
     block of short histories"""
     rng = ctx.rng
     L = []
-    budget = 60000 if ctx.quick else 900000
+    budget = 160000 if ctx.quick else 1500000
     short = [l for l in valid_lines if len(l) < 700 and l.count(" ") <= 6]
     rng.shuffle(short)
     for l in short:
@@ -669,6 +674,9 @@ def corrupt_lines(ctx, valid_lines):
             L.append(" ".join(tt))
         if len(L) > budget:
             break
+    # the documented leniencies of lshpack_dec_decode (theorems c07_deviation_*), replayed against the C
+    L += ["connx 65535 B400261200162", "connx 65535 B400261200162 Bbe", "connx 65535 B000161", "connx 65535 B3fe11f",
+          "connx 65535 B8220", "connx 65535 B7f80808000", "connx 65535 B400161016220be", "connx 65535 B40012001 62"[:-3]]
     # purely random short blocks on a fresh connection and after one valid block
     for _ in range(20000 if ctx.quick else 200000):
         v = bytes(rng.choice([rng.randrange(256), 0x40, 0x00, 0x10, 0x20, 0x3f, 0x7f, 0x80, 0x82, 0xbe, 0xff, 0x01, 0x61])
@@ -892,7 +900,7 @@ def gen_req(ctx):
     import copy
     rng = ctx.rng
     L = []
-    for _ in range(2500 if ctx.quick else 30000):
+    for _ in range(6000 if ctx.quick else 50000):
         enc = PyEncoder(rng)
         g = PyGlue()
         maxfield = rng.choice([65535, 65535, 65535, 65535, 400, 150])     # server.max-request-field-size
